@@ -999,3 +999,24 @@ pub fn tokenize(tables: &Tables, input: &str, k: usize, schedule: u8) -> Result<
     }
     Ok(out)
 }
+
+/// Calls the real `LookaheadDFA::eval` of non-terminal `nt` on a token stream over `text`.
+/// Returns the predicted production or -1 for a prediction error.
+pub fn eval_window(tables: &Tables, nt: usize, text: &str) -> Result<i64> {
+    let PTables::LL(ll) = &tables.p else { bail!("LL tables expected") };
+    let mf: &'static _ = Box::leak(Box::new(match_fn(tables.scanner.intervals)));
+    let scanner_impl = Rc::new(RefCell::new(scnr2::ScannerImpl::new(tables.scanner.modes)));
+    let mut ts = TokenStream::new_with_skip_tokens(
+        text,
+        "in.txt",
+        scanner_impl,
+        mf,
+        tables.max_k,
+        tables.skip_tokens,
+    )
+    .map_err(|e| anyhow!("{e}"))?;
+    Ok(match ll.automata[nt].eval(&mut ts, nt) {
+        Ok(p) => p as i64,
+        Err(_) => -1,
+    })
+}
